@@ -327,3 +327,23 @@ REGISTRY["C15"] = {
         {"name": "TestC15Generated", "checks": {"quick": 150, "thorough": 6000}, "shards": {"quick": 12, "thorough": 16}},
     ],
 }
+
+REGISTRY["C19"] = {
+    "pkg": "props/c19",
+    "level": "exploration",
+    "level_text": ("rapid-drawn build sequences: 1..3 processes per definitions, 0..12 AddActivity calls each over all ten activity types (sub-processes with 0..3 "
+                   "inner tasks built by a nested builder), with and without preset ids and names (incl. characters needing escaping), AutoLayout with the "
+                   "documented defaults, a grid of gaps {0,36,100,120,180,1e6} and origins {-1e6,0,96,1e6}, and free finite floats. Oracle: every id attribute "
+                   "of the serialised definitions unique; every sequence flow's source and target exist and list it among outgoing/incoming flows both on the "
+                   "stored element and through FindBy; start events without incoming, end events without outgoing flows; parse/marshal fixpoint and the same "
+                   "integrity on the re-parsed model; layout: exactly one shape per (top-level) flow node and one edge per sequence flow, finite coordinates, "
+                   "first/last waypoint on the boundary of the source/target shape, and no two shapes intersect when columnGap >= max width, rowGap >= max "
+                   "height, processGap >= 0; every fourth case the executable process is run: requests = the added activities once each in insertion order "
+                   "(inner tasks of sub-processes in place), then completion."),
+    "level_note": "Trusted: the geometric predicates in props/c19, encoding/xml, the engine driver. Shapes are required for the top-level flow nodes of each process (inner nodes of sub-processes are not laid out by the builder).",
+    "technique": "rapid property test over generated build sequences and layout configurations with structural, geometric, round-trip and execution oracles",
+    "rule": ("Distinct = descriptor (build sequence, layout configuration). Non-trivial = >=2 activities of >=2 different types, or >=2 processes, or a non-default layout."),
+    "tests": [
+        {"name": "TestC19Builder", "checks": {"quick": 250, "thorough": 20000}, "shards": {"quick": 12, "thorough": 16}},
+    ],
+}
